@@ -5,6 +5,7 @@ package main
 
 import (
 	"fmt"
+	"os"
 	"go/token"
 	"go/types"
 	"regexp"
@@ -81,7 +82,12 @@ type Engine struct {
 	curLoopState *State
 	curVisited string
 	siteDeps  map[string][]int
+	closedDone map[string]bool
 	exposing  bool
+	curLockOwner *lockOwner
+	lockChecks bool
+	unclassified map[string]bool
+	inQuant   int
 	bodyOrd   map[string]int
 	noOutside bool
 	needs     map[int][]string // conditional assumptions: included only when one of the symbols occurs in the query
@@ -91,7 +97,7 @@ func NewEngine(p *Program, fn *ssa.Function, fc *FuncContract) *Engine {
 	return &Engine{P: p, Fn: fn, FC: fc, FuncID: p.FuncIDOf(fn), declared: map[string]bool{}, reified: map[int]bool{},
 		labels: map[string]*callLabel{}, callOrd: map[string]int{}, kindOrd: map[string]int{}, notes: map[string]bool{},
 		used: map[string]bool{}, strlits: map[string]string{}, siteType: map[int]types.Type{}, params: map[string]Val{},
-		ghost: map[string]Term{}, safetyOn: true, loopPre: map[string]*State{}, autoInvs: map[string][]autoChk{}, rangeOf: map[*ssa.Range]Val{}, strSeen: map[string]bool{}, bodyOrd: map[string]int{}, needs: map[int][]string{}, siteDeps: map[string][]int{}}
+		ghost: map[string]Term{}, safetyOn: true, loopPre: map[string]*State{}, autoInvs: map[string][]autoChk{}, rangeOf: map[*ssa.Range]Val{}, strSeen: map[string]bool{}, unclassified: map[string]bool{}, bodyOrd: map[string]int{}, needs: map[int][]string{}, siteDeps: map[string][]int{}, closedDone: map[string]bool{}}
 }
 
 func (e *Engine) note(format string, args ...interface{}) {
@@ -127,7 +133,7 @@ func (e *Engine) fresh(prefix string, sort Sort) Term {
 
 // define introduces a named constant equal to t (keeps query text linear in the presence of merges).
 func (e *Engine) define(prefix string, t Term) Term {
-	if len(t.S) < 40 {
+	if len(t.S) < 40 || e.inQuant > 0 {
 		return t
 	}
 	c := e.fresh(prefix, t.Sort)
@@ -181,7 +187,7 @@ func (e *Engine) expose(ts []Term) {
 // strTerm registers a string-sorted term and instantiates the string axioms for it
 // (ground instances instead of quantified axioms keep satisfiable queries decidable).
 func (e *Engine) strTerm(t Term) Term {
-	if t.Sort != SStr || t.S == "str_empty" || e.strSeen[t.S] {
+	if t.Sort != SStr || t.S == "str_empty" || e.strSeen[t.S] || e.inQuant > 0 {
 		return t
 	}
 	e.strSeen[t.S] = true
@@ -378,10 +384,22 @@ func (e *Engine) buildQuery(o *Obligation, groundOnly bool) string {
 			}
 		}
 	}
+	if !groundOnly && strings.Contains(body.String(), "zarr.Str") {
+		b.WriteString("(assert (forall ((i Int)) (! (= (select zarr.Str i) str_empty) :pattern ((select zarr.Str i)))))\n")
+	}
 	b.WriteString(body.String())
 	b.WriteString("(check-sat)\n")
 	w := append([]string{}, e.watch...)
 	w = append(w, o.Watch...)
+	if rx := os.Getenv("GOVC_WATCH"); rx != "" {
+		re := regexp.MustCompile(rx)
+		for _, d := range e.decls {
+			f := strings.Fields(d)
+			if len(f) >= 3 && f[0] == "(declare-const" && re.MatchString(f[1]) && !strings.HasPrefix(f[2], "(Array") {
+				w = append(w, f[1])
+			}
+		}
+	}
 	if len(w) > 0 {
 		b.WriteString("(get-value (" + strings.Join(w, " ") + "))\n")
 	}
@@ -448,6 +466,18 @@ func (s *State) havocPrefix(prefixes []string, keepSites bool) {
 	e.epoch++
 	ep := e.epoch
 	match := func(name string) bool {
+		if name == lockComp && !(len(prefixes) == 1 && prefixes[0] == lockComp) {
+			// the lockset changes only through lock operations and contracts that name L.held explicitly
+			explicit := false
+			for _, p := range prefixes {
+				if p == lockComp {
+					explicit = true
+				}
+			}
+			if !explicit {
+				return false
+			}
+		}
 		for _, p := range prefixes {
 			if p == "" || name == p || strings.HasPrefix(name, p+".") || strings.HasPrefix(name, p) && strings.HasSuffix(p, ".") {
 				return true
@@ -537,12 +567,24 @@ func (e *Engine) newSite(t types.Type) (int, Term) {
 	e.sites++
 	e.siteType[e.sites] = t
 	e.declare("alloc0", SInt)
-	return e.sites, e.siteRef(e.sites)
+	r := e.siteRef(e.sites)
+	if _, isIface := t.Underlying().(*types.Interface); !isIface {
+		if pt, isPtr := t.Underlying().(*types.Pointer); isPtr {
+			// a fresh result of pointer type: the new object has the pointee type
+			e.assumes = append(e.assumes, Eq(T(SInt, "(rtype %s)", r), IntLit(int64(e.P.typeTag(pt.Elem())))))
+		} else {
+			e.assumes = append(e.assumes, Eq(T(SInt, "(rtype %s)", r), IntLit(int64(e.P.typeTag(t)))))
+		}
+	}
+	return e.sites, r
 }
 
 // outsideRef: a reference obtained from outside (parameter, heap load, call result) is none of the
 // local allocation sites whose reference has not left this function.
 func (e *Engine) outsideRef(reach Term, r Term) {
+	if e.inQuant > 0 {
+		return
+	}
 	// numbering convention: objects existing at entry are <= alloc0, this activation's allocation sites
 	// are alloc0+1 .. alloc0+10^6, objects allocated by callees (or by earlier loop iterations) lie above.
 	e.declare("alloc0", SInt)
@@ -718,6 +760,7 @@ func (e *Engine) load(st *State, a *Addr) Val {
 			lf := root[a.Off+i]
 			arr := st.comp(compName(a, lf), ArraySort(SInt, lf.Sort))
 			v.L[i] = Select(arr, a.Ref, lf.Sort)
+			e.closedHeap(arr, lf, false)
 		}
 	case aElem:
 		root := Layout(a.Root)
@@ -725,6 +768,7 @@ func (e *Engine) load(st *State, a *Addr) Val {
 			lf := root[a.Off+i]
 			arr := st.comp(compName(a, lf), ArraySort(SInt, ArraySort(SInt, lf.Sort)))
 			v.L[i] = Select(Select(arr, a.Ref, ArraySort(SInt, lf.Sort)), a.Idx, lf.Sort)
+			e.closedHeap(arr, lf, true)
 		}
 	case aGlobal:
 		root := Layout(a.Root)
@@ -842,6 +886,42 @@ func (e *Engine) closureRef(c *Closure) Term {
 	return e.declare("closure."+c.Fn.String(), SInt)
 }
 
+// closedHeap: references stored in the heap obey the numbering convention. For a component of the entry
+// state every stored reference denotes an object that existed at entry; for a component produced by a later
+// havoc it is an entry object, an object allocated by a callee, or one of this activation's sites that had
+// been exposed by then. Emitted once per root component, only into queries that mention the component.
+func (e *Engine) closedHeap(comp Term, lf Leaf, elems bool) {
+	if lf.Kind != kRef && lf.Kind != kSlArr && lf.Kind != kIfRef {
+		return
+	}
+	name := comp.S
+	if strings.ContainsAny(name, "( ") || !strings.Contains(name, "@") || e.closedDone[name] {
+		return
+	}
+	e.closedDone[name] = true
+	e.declare("alloc0", SInt)
+	sel := fmt.Sprintf("(select %s r)", name)
+	vars := "(r Int)"
+	if elems {
+		sel = fmt.Sprintf("(select (select %s r) i)", name)
+		vars = "(r Int) (i Int)"
+	}
+	cs := []string{fmt.Sprintf("(<= %s alloc0)", sel)}
+	if !strings.HasSuffix(strings.Trim(name, "|"), "@0") {
+		cs = append(cs, fmt.Sprintf("(> %s (+ alloc0 1000000))", sel))
+		for k := 1; k <= e.sites; k++ {
+			if e.reified[k] {
+				cs = append(cs, fmt.Sprintf("(= %s %s)", sel, e.siteRef(k).S))
+			}
+		}
+	}
+	body := cs[0]
+	if len(cs) > 1 {
+		body = "(or " + strings.Join(cs, " ") + ")"
+	}
+	e.assumeIfRelevant(T(SBool, "(forall (%s) (! %s :pattern (%s)))", vars, body, sel), []string{strings.Trim(name, "|")})
+}
+
 // havocVal creates an unconstrained well-formed value of type t.
 func (e *Engine) havocVal(reach Term, prefix string, t types.Type) Val {
 	ls := Layout(t)
@@ -866,6 +946,12 @@ func (e *Engine) assumeWF(reach Term, v Val) {
 			e.assume(reach, inRange(l.T, x))
 		case kRef, kSlArr, kIfRef, kIfTag:
 			e.assume(reach, Bin(SBool, ">=", x, IntLit(0)))
+			if l.Kind == kRef {
+				// typed heap: a non-nil pointer to T refers to an object of type T
+				if pt, ok := l.T.Underlying().(*types.Pointer); ok {
+					e.assume(reach, Or(Eq(x, IntLit(0)), Eq(T(SInt, "(rtype %s)", x), IntLit(int64(e.P.typeTag(pt.Elem()))))))
+				}
+			}
 			if l.Kind != kIfTag && !e.noOutside {
 				e.outsideRef(reach, x)
 			}
@@ -877,7 +963,22 @@ func (e *Engine) assumeWF(reach Term, v Val) {
 				Implies(Eq(arr, IntLit(0)), And(Eq(cp, IntLit(0)), Eq(off, IntLit(0))))))
 		}
 		if l.Kind == kIfRef {
-			e.assume(reach, Implies(Eq(v.L[i-1], IntLit(0)), Eq(x, IntLit(0))))
+			tag := v.L[i-1]
+			e.assume(reach, Implies(Eq(tag, IntLit(0)), Eq(x, IntLit(0))))
+			if e.P.isRepoInterface(l.T) {
+				// closed world: only types of this program can implement an interface declared in the repository
+				e.used["closed world: values of "+typeID(l.T)+" have one of the program's implementing types"] = true
+				cases := []Term{Eq(tag, IntLit(0))}
+				for _, dt := range e.P.implementers(l.T) {
+					tt := IntLit(int64(e.P.typeTag(dt)))
+					var payload types.Type = dt
+					if pt, ok := dt.Underlying().(*types.Pointer); ok {
+						payload = pt.Elem()
+					}
+					cases = append(cases, And(Eq(tag, tt), Or(Eq(x, IntLit(0)), Eq(T(SInt, "(rtype %s)", x), IntLit(int64(e.P.typeTag(payload)))))))
+				}
+				e.assume(reach, Or(cases...))
+			}
 		}
 	}
 }
